@@ -98,7 +98,7 @@ def type_bits(ty):
 class Interp:
     def __init__(self, facts, opaque=(), sym_facts=None, max_depth=14, skip_asserts=('misaligned', 'null_deref'),
                  models=None, step_limit=200000, revisit_limit=4, trust_asserts=(), on_call=None, dyn_filter=None,
-                 loop_mode='abort', path_budget=20000):
+                 loop_mode='abort', path_budget=20000, opaque_havoc=None):
         self.facts = facts
         self.fns = facts['functions']
         self.adts = facts['adts']
@@ -114,6 +114,7 @@ class Interp:
         self.revisit_limit = revisit_limit
         self.on_call = on_call
         self.dyn_filter = dyn_filter
+        self.opaque_havoc = opaque_havoc or {}   # opaque callee -> arg indexes whose pointees it may write
         self.loop_mode = loop_mode      # 'abort' | 'havoc'
         self.path_budget = path_budget
         self.paths_done = 0
@@ -859,13 +860,13 @@ class Interp:
         av = st.env.av(d)
         out = []
         for v, b in t['targets']:
-            if av.contains(v):
+            if st.env.possible(d, v):
                 out.append((b, (lambda env, v=v: env.assume_eq(d, v))))
         # otherwise: feasible if some value in av outside vals
         span = av.hi - av.lo + 1
         other_possible = True
         if span <= 512:
-            other_possible = any(av.contains(x) and x not in vals for x in range(av.lo, av.hi + 1))
+            other_possible = any(st.env.possible(d, x) and x not in vals for x in range(av.lo, av.hi + 1))
         if other_possible:
             def ref_other(env, vals=vals):
                 ok = True
@@ -916,6 +917,9 @@ class Interp:
         if callee in self.opaque:
             ret = T.UNIT if dest_ty == '()' else st.fresh(type_bits(dest_ty), 'ret:' + callee.split('::')[-1])
             st.events.append(('call', callee, tuple(args), ret, site))
+            for i in self.opaque_havoc.get(callee, ()):
+                if i < len(args):
+                    self.havoc_pointee(st, args[i])
             yield (ret, st, 'ok', None)
             return
         if callee in self.fns:
@@ -938,6 +942,11 @@ class Interp:
 
     def havoc_pointee(self, st, a, t=None):
         if a is None:
+            return
+        if a[0] == 's' and a[1] == 0:
+            root = ('O', a[2])
+            if root in st.mem:
+                st.mem[root] = st.fresh(0, 'havoc')
             return
         if a[0] in ('ref', 'slice'):
             root, path = a[1], a[2]
